@@ -7,12 +7,22 @@ Part 1 (engine E1, mc.histories) - product breadth-first search over the real ob
   (m = 1 rolls over to a TemporaryFile on the first write, 3 and 8 somewhere inside the explored contents,
   10**6 never by itself).  Operation menu (exactly the calls the statement lists):
       write(w)      w in {'a', 'e-acute\\n', 'b\\r\\nc', U+1F600}  (bytes: their UTF-8)  - enabled only at end of data
+      write('')     the empty write - enabled only at end of data, does not count as one of the max_writes words
+      writelines(x) the other appending-write entry point: x = every tuple of 0-2 items, each a word above or the
+                    empty string (as long as the bound on the number of non-empty written words allows), handed over
+                    as a list, a tuple, a generator and a plain iterator (the one-shot forms can be walked only
+                    once) - enabled only at end of data
       read(), read(1|2|3), readline(), readlines(), `for line in f` (a fresh iterator each time),
       iter(f) + next(it): `iter` obtains an iterator and KEEPS it, `next` advances the kept iterator (next(f) while none
                     has been obtained) - so one iterator is carried across later writes, seeks and rollovers, the way a
                     reader that walks a growing file line by line does (io.BytesIO / io.StringIO support exactly this)
       seek(p) for every p in [0, len]  (code points for SpooledStringIO, bytes for SpooledBytesIO), seek(0, SEEK_END)
-      tell(), getvalue(), len(f)
+      seek(d, SEEK_CUR) / seek(-k, SEEK_END): the same positions inside the data named relative to the cursor or to
+                    the end - SpooledBytesIO: every d with 0 <= pos + d <= len and every k in [1, len], and
+                    seek(p, SEEK_SET) with the whence spelled out (SpooledStringIO: in the thorough tier);
+                    SpooledStringIO: seek(0, SEEK_CUR) only, io.StringIO refuses every other relative seek, so the
+                    statement's reference gives nothing to compare with
+      tell(), getvalue(), len(f) (the variants are asked len(f) and then f.len; both must be the reference's length)
       rollover()    the explicit form of "has rolled over to a temporary file": a no-op for the reference and for
                     variants that already rolled; it is the only way to reach the rolled state at a position that is
                     not the end of the data (writes are appending)
@@ -56,6 +66,8 @@ LEVEL = 'model_checking'
 WORDS = ('a', 'é\n', 'b\r\nc', '\U0001F600')
 MAX_SIZES = (1, 3, 8, 10 ** 6)
 READ_NS = (1, 2, 3)
+WL_SHAPES = ('list', 'tuple', 'generator', 'iterator')      # how writelines() is handed its lines
+WL_MAX_ITEMS = 2
 ITER_LIMIT = 64             # no explored content has more than ~10 lines
 
 OP_CPU_S = 3.0              # CPU seconds per operation on the five objects (normally < 1 ms)
@@ -132,7 +144,34 @@ def opname(op):
         return 'seek(p)'
     if op[0] == 'seek_end':
         return 'seek(0,END)'
+    if op[0] == 'seek_rel':
+        return {os.SEEK_SET: 'seek(p,SET)', os.SEEK_CUR: 'seek(d,CUR)', os.SEEK_END: 'seek(-k,END)'}[op[2]]
+    if op[0] == 'writelines':
+        return 'writelines(%s)' % op[1]
     return op[0]
+
+
+def is_write(op):
+    return op[0] in ('write', 'writelines')
+
+
+def words_written(op):
+    """How much of the max_writes bound an operation uses up: the number of non-empty words it appends."""
+    return len([w for w in ((op[1],) if op[0] == 'write' else op[2] if op[0] == 'writelines' else ()) if w])
+
+
+def lines_arg(shape, items):
+    """The argument of writelines(): the same items as a sequence or as an object that can be walked once only."""
+    items = list(items)
+    if shape == 'list':
+        return items
+    if shape == 'tuple':
+        return tuple(items)
+    if shape == 'generator':
+        return (x for x in items)
+    if shape == 'iterator':
+        return iter(items)
+    raise AssertionError(shape)
 
 
 ITERS = {}                  # id(file object) -> the iterator obtained by the last `iter` operation (dropped on close)
@@ -159,6 +198,9 @@ def apply(f, op, kind, ref=False):
         if name == 'write':
             f.write(op[1].encode('utf-8') if kind == 'bytes' else op[1])
             return ('ok', None)                      # return value deliberately not observed (DESIGN 5.1)
+        if name == 'writelines':
+            f.writelines(lines_arg(op[1], [w.encode('utf-8') if kind == 'bytes' else w for w in op[2]]))
+            return ('ok', None)
         if name == 'read':
             return ('ok', f.read() if len(op) == 1 else f.read(op[1]))
         if name == 'readline':
@@ -180,12 +222,17 @@ def apply(f, op, kind, ref=False):
             return ('ok', f.seek(op[1]))
         if name == 'seek_end':
             return ('ok', f.seek(0, os.SEEK_END))
+        if name == 'seek_rel':
+            return ('ok', f.seek(op[1], op[2]))
         if name == 'tell':
             return ('ok', f.tell())
         if name == 'getvalue':
             return ('ok', f.getvalue())
         if name == 'len':
-            return ('ok', len(f.getvalue()) if ref else len(f))
+            if ref:
+                return ('ok', len(f.getvalue()))
+            n, n2 = len(f), f.len                    # the two spellings of the same query
+            return ('ok', n if type(n2) is type(n) and n2 == n else {'len(f)': n, 'f.len': n2})
         if name == 'rollover':
             if not ref:
                 f.rollover()
@@ -217,6 +264,7 @@ class Spec:
     def __init__(self, kind, chunk, max_writes, words=WORDS):
         self.kind, self.chunk, self.max_writes, self.words = kind, chunk, max_writes, tuple(words)
         self.clsname = 'SpooledBytesIO' if kind == 'bytes' else 'SpooledStringIO'
+        self.spell_whence = False     # SpooledStringIO: also seek(p, SEEK_SET) with the whence spelled out (thorough)
         self.config = {'class': self.clsname, 'reference': 'io.BytesIO' if kind == 'bytes' else 'io.StringIO',
                        'max_sizes': list(MAX_SIZES), 'READ_CHUNK_SIZE': chunk or 'native',
                        'words': list(self.words), 'max_writes': max_writes}
@@ -265,10 +313,25 @@ class Spec:
         ops = []
         if pos == content_len and nwrites < self.max_writes:
             ops += [('write', w) for w in self.words]
+        if pos == content_len:
+            ops += [('write', '')]                    # appends nothing: allowed whatever has been written so far
+            for k in range(WL_MAX_ITEMS + 1):
+                for items in itertools.product(('',) + self.words, repeat=k):
+                    if nwrites + len([w for w in items if w]) <= self.max_writes:
+                        ops += [('writelines', shape, items) for shape in WL_SHAPES]
         ops += [('read',)] + [('read', n) for n in READ_NS]
         ops += [('readline',), ('readlines',), ('iter',), ('next',), ('iterate',)]
         ops += [('seek', p) for p in range(content_len + 1)]
         ops += [('seek_end',), ('tell',), ('getvalue',), ('len',), ('rollover',)]
+        # the same positions named relative to the cursor / to the end; io.StringIO accepts seek(0, SEEK_CUR) only
+        if self.kind == 'bytes':
+            ops += [('seek_rel', p, os.SEEK_SET) for p in range(content_len + 1)]      # whence spelled out
+            ops += [('seek_rel', p - pos, os.SEEK_CUR) for p in range(content_len + 1)]
+            ops += [('seek_rel', -k, os.SEEK_END) for k in range(1, content_len + 1)]
+        else:
+            ops += [('seek_rel', 0, os.SEEK_CUR)]
+            if self.spell_whence:
+                ops += [('seek_rel', p, os.SEEK_SET) for p in range(content_len + 1)]
         return ops
 
     # -- engine interface ------------------------------------------------------------------------------
@@ -290,7 +353,7 @@ class Spec:
             try:
                 for op in hist:
                     apply(ref, op, self.kind, ref=True)
-                ops = self.enabled(len(ref.getvalue()), ref.tell(), sum(1 for o in hist if o[0] == 'write'))
+                ops = self.enabled(len(ref.getvalue()), ref.tell(), sum(words_written(o) for o in hist))
             finally:
                 self.close(ref, var)
             for op in ops:
@@ -328,9 +391,9 @@ class Spec:
                 label = (name, '%s rolled=%s' % (r_m[0] if r_m[0] == 'ok' else r_m[1], ''.join(
                     'Y' if hidden(f, self.kind)[0] is True else 'n' for f in var)))
                 for m, f, r_i in zip(MAX_SIZES, var, results):
-                    if op[0] != 'write' and r_i != r_m:
+                    if not is_write(op) and r_i != r_m:
                         bad('result', r_m, r_i, m)
-                    elif op[0] == 'write' and r_i[0] != 'ok':
+                    elif is_write(op) and r_i[0] != 'ok':
                         bad('raises', r_m, r_i, m)
                     t = apply(f, ('tell',), self.kind)
                     if t != ('ok', pos):
@@ -371,6 +434,8 @@ def spooled_searches(tier):
                 Spec('text', 2, 4, words=('\n', 'é', 'a\U0001F600')),
                 Spec('text', 2, 3, words=WORDS + ('\u20ac\n\n',)),          # a 3-byte character, an empty line
                 Spec('bytes', None, 3, words=WORDS + ('\u20ac\n\n',))]
+        for spec in out:
+            spec.spell_whence = True
     return out
 
 
@@ -379,6 +444,9 @@ def spooled_searches(tier):
 
 MFR_ALPHABET = ('a', 'b', '\n')
 MFR_INSTR = (1, 2, 3, 'read', 'seek0')
+# other spellings of the same calls: the unsized read with its default written out, the sized read by keyword, the
+# rewind with its whence written out
+MFR_SPELLINGS = ('read(None)', 'read(amt=2)', 'seek(0,SEEK_SET)')
 MFR_ALPHABET_X = ('a', '\u00e9', '\n')       # contents for the other member kinds: a two-byte character included
 
 
@@ -487,13 +555,22 @@ def _mfr_run(ioutils, kind, members, prog):
     try:
         r = ioutils.MultiFileReader(*files)
         for ins in prog:
-            if ins == 'seek0':
-                r.seek(0)
+            if ins in ('seek0', 'seek(0,SEEK_SET)'):
+                if ins == 'seek0':
+                    r.seek(0)
+                else:
+                    r.seek(0, os.SEEK_SET)
                 acc, phase = empty, 'after-seek(0)'
                 continue
-            sized = ins != 'read'
-            what = 'read(n)' if sized else 'read()'
-            got = r.read(ins) if sized else r.read()
+            if ins == 'read(None)':
+                sized, what, got = False, 'read(None)', r.read(None)
+            elif ins == 'read(amt=2)':
+                ins = 2
+                sized, what, got = True, 'read(amt=n)', r.read(amt=2)
+            else:
+                sized = ins != 'read'
+                what = 'read(n)' if sized else 'read()'
+                got = r.read(ins) if sized else r.read()
             if type(got) is not type(empty):
                 return ('%s|%s|type' % (what, phase), type(empty).__name__, type(got).__name__)
             if sized and len(got) > ins:
@@ -506,23 +583,30 @@ def _mfr_run(ioutils, kind, members, prog):
     except Hang:
         raise
     except Exception as e:                           # noqa
-        return ('%s|%s|raises' % ('seek(0)' if ins == 'seek0' else 'read', phase), 'no exception', type(e).__name__)
+        return ('%s|%s|raises' % ('seek(0)' if ins in ('seek0', 'seek(0,SEEK_SET)') else 'read', phase),
+                'no exception', type(e).__name__)
     finally:
         close_all(files)
     return None
 
 
-def mfr_programs(maxlen):
+def mfr_programs(maxlen, spellings=False):
+    """Every program of at most maxlen instructions; with spellings=True the instruction set also has MFR_SPELLINGS
+    and only the programs that use at least one of them are kept (the others are in the plain space)."""
     out = []
     for n in range(maxlen + 1):
-        out += list(itertools.product(MFR_INSTR, repeat=n))
+        if spellings:
+            out += [p for p in itertools.product(MFR_INSTR + MFR_SPELLINGS, repeat=n)
+                    if any(i in MFR_SPELLINGS for i in p)]
+        else:
+            out += list(itertools.product(MFR_INSTR, repeat=n))
     return out
 
 
 def mfr_shard(arg):
-    items, proglen = arg
+    items, proglen = arg[:2]
     from boltons import ioutils
-    progs = mfr_programs(proglen)
+    progs = mfr_programs(proglen, spellings=len(arg) > 2 and arg[2] == 'spellings')
     t = inputs.Tally()
     hung = False
     for kind, content in items:
@@ -532,7 +616,7 @@ def mfr_shard(arg):
                 with cpu_budget(2.0 if hung else 30.0):
                     for prog in progs:
                         case = {'part': 'mfr', 'kind': kind, 'members': list(members), 'program': list(prog)}
-                        nontrivial = spans and any(i != 'seek0' for i in prog)
+                        nontrivial = spans and any(i not in ('seek0', 'seek(0,SEEK_SET)') for i in prog)
                         t.count(nontrivial=nontrivial, sample=case if nontrivial and len(prog) > 2 else None)
                         v = mfr_run(ioutils, kind, members, prog)
                         if v is not None:
@@ -577,6 +661,15 @@ def run(ctx):
         shard_args = [(small, proglen)] + [(sh, proglen) for sh in core.shards(rest, 63)]
         inputs.run_shards(ctx, mfr_shard, shard_args, part='MultiFileReader', rule=(
             'non-trivial = content non-empty, at least two member files and at least one read in the program'))
+        # other spellings of the calls (default / keyword arguments written out), on a smaller space
+        sp_len, sp_prog = (2 if quick else 3), 3
+        sp_items = mfr_items(sp_len)
+        inputs.run_shards(ctx, mfr_shard, [([it for it in sp_items if len(it[1]) <= 1], sp_prog, 'spellings')]
+                          + [(sh, sp_prog, 'spellings') for sh in core.shards([it for it in sp_items if len(it[1]) > 1],
+                                                                              15)],
+                          part='MultiFileReader, calls spelled differently', rule=(
+                              'non-trivial = content non-empty, at least two member files and at least one read in '
+                              'the program'))
         # the other member kinds, on a smaller space (their reads cost 10-50x an io.StringIO's)
         if quick:
             spaces = [(MFR_KINDS_X_MEMORY, 3, 3), (MFR_KINDS_X_MIXED + MFR_KINDS_X_ROLLED, 2, 3),
@@ -594,12 +687,23 @@ def run(ctx):
                                'the program')
         cov['bounds'] = {
             'spooled': {'max_sizes': list(MAX_SIZES), 'read_sizes': list(READ_NS), 'seeks': 'every position 0..len, '
-                        'and seek(0, SEEK_END)', 'depth': 'unbounded (search runs to a fixpoint)',
+                        'seek(0, SEEK_END); SpooledBytesIO also every seek(p, SEEK_SET), seek(d, SEEK_CUR) and '
+                        'seek(-k, SEEK_END) that lands on 0..len; SpooledStringIO seek(0, SEEK_CUR)%s'
+                        % ('' if quick else ' and every seek(p, SEEK_SET)'),
+                        'writelines': 'every tuple of 0..%d items, each a word or the empty string (within max '
+                                      'appending writes) as %s; write(empty) at end of data'
+                                      % (WL_MAX_ITEMS, ', '.join(WL_SHAPES)),
+                        'depth': 'unbounded (search runs to a fixpoint)',
                         'searches (class, READ_CHUNK_SIZE, words, max appending writes)': [
                             [c['class'], c['READ_CHUNK_SIZE'], c['words'], c['max_writes']] for c, _ in parts]},
             'MultiFileReader': {'alphabet': list(MFR_ALPHABET), 'max_content_len': maxlen, 'members': '1-3, empty '
                                 'members included', 'program_steps': proglen, 'instructions': list(MFR_INSTR),
                                 'kinds': ['text (io.StringIO members)', 'bytes (io.BytesIO members)']},
+            'MultiFileReader, calls spelled differently': {
+                'alphabet': list(MFR_ALPHABET), 'max_content_len': sp_len, 'members': '1-3, empty members included',
+                'program_steps': sp_prog, 'instructions': list(MFR_INSTR) + list(MFR_SPELLINGS),
+                'programs': 'those with at least one of ' + ', '.join(MFR_SPELLINGS),
+                'kinds': ['text (io.StringIO members)', 'bytes (io.BytesIO members)']},
             'MultiFileReader over other kinds of member files': [
                 {'member_kinds': list(kinds), 'alphabet': list(MFR_ALPHABET_X), 'max_content_len': xlen,
                  'members': '1-3, empty members included', 'program_steps': xprog, 'instructions': list(MFR_INSTR)}
@@ -609,6 +713,11 @@ def run(ctx):
     ctx.assumptions += [
         "write()'s return value is not compared; writes happen only with the position at the end of the data; seeks "
         "only to positions 0..len (DESIGN 5.1)",
+        'writelines() is taken as an appending write (items of the right type only; a list, a tuple, a generator, an '
+        'iterator); relative seeks with a non-zero offset are explored on SpooledBytesIO only: io.StringIO refuses '
+        'them, so there is no reference value for SpooledStringIO',
+        'readline(size), readlines(hint), read(None), truncate() and the aliases pos / buf are not named by the '
+        'statement and are not called',
         'the reference is io.BytesIO() / io.StringIO() with default arguments (newline="\\n": only \\n ends a line); '
         'a lone \\r is not in the alphabet',
         'explicit rollover() is treated as a configuration event (no-op on the reference): it must keep content and '
@@ -627,7 +736,7 @@ def replay(ctx, data):
     with scratch_tmpdir():
         if case.get('part') == 'mfr':
             from boltons import ioutils
-            prog = [i if i in ('read', 'seek0') else int(i) for i in case['program']]
+            prog = [i if isinstance(i, str) else int(i) for i in case['program']]
             try:
                 with cpu_budget(30.0):
                     v = mfr_run(ioutils, case['kind'], tuple(case['members']), tuple(prog))
@@ -641,7 +750,7 @@ def replay(ctx, data):
         chunk = cfg['READ_CHUNK_SIZE']
         spec = Spec('bytes' if cfg['class'] == 'SpooledBytesIO' else 'text', None if chunk == 'native' else int(chunk),
                     cfg['max_writes'], words=cfg['words'])
-        hist = [tuple(op) for op in case['history']]
+        hist = [tuple(tuple(a) if isinstance(a, list) else a for a in op) for op in case['history']]
         with spec.seam() as ioutils:
             for i in range(len(hist)):
                 viols, key, label = spec.step(ioutils, tuple(hist[:i]), hist[i])
